@@ -30,35 +30,39 @@ Check C09_aged_next_set_is_paid : forall c n t0 h0 a0 h h2 a t g p,
      (map resps (snd (run c (sys_start n t0 h0 a0) (recover_schedule h ++ second_schedule h2 (length (parts n)) p)))).
 Check C09_markfailed_write_never_refused : forall n a am b,
   snd (node_exec n (QWriteAtt CreateOrReplace a true false am b) NoFault) = Some YUnit.
-Check C09_cooperative_runs_never_fail : forall c B Dl n t0 h0 a0 evs,
+Check C09_cooperative_runs_never_fail : forall c B Dl T n t0 h0 a0 evs,
   mpp_ms c <> 0 -> node_ok n ->
   (forall a, mem_att a (atts n) = true -> a < a0) ->
-  (forall a t g, ds n = Some (DPending a t, g) -> a < a0 /\ t0 - t < mpp_ms c) ->
-  hist_wf true c (sys_start n t0 h0 a0) evs -> Forall (ev_coop c B Dl) evs ->
+  (forall a t g, ds n = Some (DPending a t, g) -> a < a0 /\ T - t < mpp_ms c) ->
+  t0 <= T -> T - t0 < mpp_ms c ->
+  hist_wf true c (sys_start n t0 h0 a0) evs -> hist_coop c B Dl T (sys_start n t0 h0 a0) evs ->
   forall o h m, In o (snd (run c (sys_start n t0 h0 a0) evs)) -> ~ In (OResp h (Fail m)) o.
-Check C09_cooperative_run_at_rest_has_settled_everything : forall c B Dl n t0 h0 a0 pre h post,
+Check C09_cooperative_run_at_rest_has_settled_everything : forall c B Dl T n t0 h0 a0 pre h post,
   mpp_ms c <> 0 -> node_ok n ->
   (forall a, mem_att a (atts n) = true -> a < a0) ->
-  (forall a t g, ds n = Some (DPending a t, g) -> a < a0 /\ t0 - t < mpp_ms c) ->
+  (forall a t g, ds n = Some (DPending a t, g) -> a < a0 /\ T - t < mpp_ms c) ->
+  t0 <= T -> T - t0 < mpp_ms c ->
   let evs := pre ++ EvHtlc h :: post in
-  hist_wf true c (sys_start n t0 h0 a0) evs -> Forall (ev_coop c B Dl) evs -> ~ In EvCrash post ->
+  hist_wf true c (sys_start n t0 h0 a0) evs -> hist_coop c B Dl T (sys_start n t0 h0 a0) evs -> ~ In EvCrash post ->
   let s := after c n t0 h0 a0 evs in
   (forall ev, progress_ev s ev = true -> ev_wf true s ev -> ~ seffective c s ev) ->
   exists o pr, In o (snd (run c (sys_start n t0 h0 a0) evs)) /\ In (OResp (hid h) (Resolve pr)) o.
-Check C09_cooperative_step : forall c B Dl s ev,
-  mpp_ms c <> 0 -> wreach true c s -> K c B Dl s -> ev_coop c B Dl ev ->
-  K c B Dl (fst (step c s ev)) /\ forall h m, ~ In (OResp h (Fail m)) (snd (step c s ev)).
+Check C09_cooperative_step : forall c B Dl T s ev,
+  mpp_ms c <> 0 -> wreach true c s -> K c B Dl T s -> ev_coop c B Dl T s ev ->
+  K c B Dl T (fst (step c s ev)) /\ forall h m, ~ In (OResp h (Fail m)) (snd (step c s ev)).
 (* what "cooperative" means is pinned too *)
-Check (eq_refl : ev_coop = fun c B Dl ev =>
+Check (eq_refl : ev_coop = fun c B Dl T s ev =>
   match ev with
   | EvHtlc h => good_htlc c B Dl h
   | EvProcess _ f => f = NoFault
   | EvPayFinish _ o => exists p, o = PayComplete p
-  | EvTick _ => False
+  | EvTick dt => now s + dt <= T
   | _ => True
   end).
 Check (eq_refl : good_htlc = fun c B Dl h =>
   blob h = B /\ deliver h = Dl /\ (rel h <? Z.of_N (pol_delta (pol c)))%Z = false /\ fee_sufficient (pol c) (total h) (deliver h) = true).
+Check (eq_refl : hist_coop = fun c B Dl T => fix hist_coop (s : sys) (evs : list event) {struct evs} : Prop :=
+  match evs with [] => True | ev :: r => ev_coop c B Dl T s ev /\ hist_coop (fst (step c s ev)) r end).
 Print Assumptions C09_crash_image_is_a_start_image.
 Print Assumptions C09_never_wedged.
 Print Assumptions C09_free_image_pays.
